@@ -216,6 +216,7 @@ namespace bluetoe
                         h.read_mem( addr_ + ptr_, PageSize - ptr_, &buffer_[ ptr_ ] );
 
                     h.start_flash( addr_, &buffer_[ 0 ], PageSize );
+                    h.flash_started();
 
                     return true;
                 }
@@ -286,7 +287,17 @@ namespace bluetoe
                     , next_buffer_( 0 )
                     , used_buffer_( 0 )
                     , consecutive_( 0 )
+                    , running_flashs_( 0 )
+                    , stale_flashs_( 0 )
                 {
+                }
+
+                /*
+                 * called by the page buffers for every call to start_flash()
+                 */
+                void flash_started()
+                {
+                    ++running_flashs_;
                 }
 
                 std::uintptr_t read_address( const std::uint8_t* rend )
@@ -320,6 +331,7 @@ namespace bluetoe
                             in_flash_mode = false;
                             next_buffer_  = 0;
                             used_buffer_  = 0;
+                            stale_flashs_ = running_flashs_;
 
                             for ( auto& buffer : buffers_ )
                                 buffer.free();
@@ -330,7 +342,8 @@ namespace bluetoe
                             if ( write_size != 1 + 2 * sizeof( std::uint8_t* ) )
                                 return request_error( bluetoe::error_codes::invalid_attribute_value_length );
 
-                                                 start_address = read_address( value +1 );
+                            // the address of a running flash procedure is not changed
+                            const std::uintptr_t start_address = read_address( value +1 );
                             const std::uintptr_t end_address   = read_address( value +1 + sizeof( std::uint8_t* ) );
 
                             if ( start_address > end_address || !MemRegions::acceptable( start_address,end_address ) )
@@ -350,8 +363,11 @@ namespace bluetoe
                             next_buffer_  = 0;
                             used_buffer_  = 0;
                             in_flash_mode = true;
+                            // flash operations that are still running, will not free a buffer of this procedure
+                            stale_flashs_ = running_flashs_;
 
-                            if ( !MemRegions::acceptable( start_address, start_address ) )
+                            // the whole page that contains the start address will be read and flashed
+                            if ( !page_acceptable( start_address ) )
                                 return request_error( bluetoe::error_codes::invalid_offset );
 
                             for ( auto& buffer : buffers_ )
@@ -391,6 +407,11 @@ namespace bluetoe
                         break;
                     case opc_read:
                         {
+                            if ( write_size != 1 + 2 * sizeof( std::uint8_t* ) )
+                                return request_error( bluetoe::error_codes::invalid_attribute_value_length );
+
+                            // start_address is shared with the flash procedure: reading ends the flash mode
+                            in_flash_mode = false;
                             error         = error_codes::success;
                             start_address = read_address( value +1 );
                             end_address   = read_address( value +1 + sizeof( std::uint8_t* ) );
@@ -547,7 +568,17 @@ namespace bluetoe
 
                 std::uint8_t bootloader_progress_data( std::size_t read_size, std::uint8_t* out_buffer, std::size_t& out_size )
                 {
-                    buffers_[used_buffer_].free();
+                    const bool stale = stale_flashs_ != 0;
+
+                    if ( running_flashs_ )
+                        --running_flashs_;
+
+                    // the end of a flash operation that was started before the page buffers where reset
+                    if ( stale )
+                        --stale_flashs_;
+                    else
+                        buffers_[used_buffer_].free();
+
                     out_size = 7;
                     assert( read_size >= out_size );
 
@@ -558,7 +589,8 @@ namespace bluetoe
                     *out_buffer = read_size + 3;
                     ++out_buffer;
 
-                    used_buffer_ = ( used_buffer_ + 1 ) % number_of_concurrent_flashs;
+                    if ( !stale )
+                        used_buffer_ = ( used_buffer_ + 1 ) % number_of_concurrent_flashs;
 
                     return bluetoe::error_codes::success;
                 }
@@ -592,11 +624,20 @@ namespace bluetoe
                     return result;
                 }
 
+                static bool page_acceptable( std::uintptr_t address )
+                {
+                    const std::uintptr_t page_start = address - address % PageSize;
+                    const std::uintptr_t page_end   = page_start + PageSize;
+
+                    // the last page of the address space ends at 0
+                    return page_end > page_start && MemRegions::acceptable( page_start, page_end );
+                }
+
                 bool find_next_buffer( std::size_t start_address )
                 {
                     const auto next = ( next_buffer_ + 1 ) % number_of_concurrent_flashs;
 
-                    if ( buffers_[ next ].empty() )
+                    if ( buffers_[ next ].empty() && page_acceptable( start_address ) )
                     {
                         ++consecutive_;
                         buffers_[ next ].set_start_address( start_address, *this, buffers_[ next_buffer_ ].crc(), consecutive_ );
@@ -627,6 +668,8 @@ namespace bluetoe
                 unsigned                        next_buffer_;
                 unsigned                        used_buffer_;
                 std::uint16_t                   consecutive_;
+                unsigned                        running_flashs_;
+                unsigned                        stale_flashs_;
                 flash_buffer< PageSize >        buffers_[number_of_concurrent_flashs];
             };
 
